@@ -522,11 +522,68 @@ def evaluate(R, data, io_fault=None, entry='path', clock=False, path=None):
                 try:
                     R.droop.election.Election(p, {'rule': r})
                 except BaseException as e:      # pylint: disable=broad-except
+                    # the eleven constructions run in one process; a failure that only shows after the earlier ones
+                    # is history dependence (C20's subject).  The statement is about each rule by itself: confirm in a
+                    # really fresh interpreter before calling it a C16 violation.
+                    ckey = (r, type(e).__name__)
+                    alone = _ALONE_SEEN.get(ckey) if _ALONE_CALLS[0] >= 8 else None
+                    if alone is None:
+                        alone = _constructs_alone(R, data, res['entry'], path, r)
+                        if alone != '?':
+                            _ALONE_SEEN[ckey] = alone
+                    if alone == 'ok':
+                        res['constructor_failure_history_dependent'] = True
+                        break
                     frame, line_text = exc_info_in_tree(R, e)
                     res['viol'].append(dict(cls='constructor-fails', exc=type(e).__name__, frame=frame,
                                             line_text=line_text, msg='rule %s: %s' % (r, str(e)[:120])))
                     break
     return res
+
+
+_ALONE = """
+import base64, json, sys
+sys.dont_write_bytecode = True
+job = json.load(sys.stdin)
+sys.path.insert(0, job['verif'])
+from dsim import core, simfs
+R = core.bind_repo(job['repo'])
+data = base64.b64decode(job['data'])
+fs = simfs.SimFS()
+path = job['path'] or '/simfs/ballots.blt'
+fs.put(path, data)
+try:
+    with core.sunk_stdout(), simfs.mounted(R.droop.profile, fs):
+        p = R.droop.profile.ElectionProfile(path=path) if job['entry'] == 'path' else \
+            R.droop.profile.ElectionProfile(data=data.decode('utf-8-sig'))
+        R.droop.election.Election(p, {'rule': job['rule']})
+    print('ok')
+except BaseException as e:
+    print('raises:' + type(e).__name__)
+"""
+
+_ALONE_CALLS = [0]
+_ALONE_SEEN = {}      # (rule, exception type) -> verdict of the last confirmation in this worker
+
+
+def _constructs_alone(R, data, entry, path, rule):
+    "does Election(profile, {'rule': rule}) succeed when it is the first thing a fresh interpreter does? 'ok' / 'raises:X' / '?'"
+    import json         # pylint: disable=import-outside-toplevel
+    import os           # pylint: disable=import-outside-toplevel
+    import subprocess   # pylint: disable=import-outside-toplevel
+    from .core import VERIF_DIR     # pylint: disable=import-outside-toplevel
+    if _ALONE_CALLS[0] >= 8 or len(data) > 5_000_000:
+        return '?'          # enough confirmations in this worker; treat like the confirmed ones
+    _ALONE_CALLS[0] += 1
+    try:
+        p = subprocess.run([sys.executable, '-c', _ALONE], input=json.dumps(dict(
+            verif=VERIF_DIR, repo=R.path, data=base64.b64encode(data).decode('ascii'), entry=entry, path=path,
+            rule=rule)), env=dict(os.environ, PYTHONHASHSEED='0'), capture_output=True, text=True, timeout=120,
+            check=False)
+    except subprocess.TimeoutExpired:
+        return '?'
+    out = (p.stdout or '').strip().splitlines()
+    return out[-1] if out else '?'
 
 
 def signature(v):
@@ -571,6 +628,8 @@ def _account(acc, kinds, io, res, changed, nbytes):
         pr['handle_not_closed'] = pr.get('handle_not_closed', 0) + 1
     if res.get('slow'):
         pr['slow_not_hang'] = pr.get('slow_not_hang', 0) + 1
+    if res.get('constructor_failure_history_dependent'):
+        pr['constructor_failure_only_after_other_rules'] = pr.get('constructor_failure_only_after_other_rules', 0) + 1
     if res.get('msg'):
         m = res['msg']
         for tag, needle in (('eof_in_names', 'candidate name'), ('eof_in_title', 'election title'),
@@ -705,16 +764,23 @@ def realfs_crosscheck(R, data, io, scratch):
     else:
         return None, 'not reproducible on a real file system'
     sim = evaluate(R, data, io, 'path')
+    if sim['outcome'] == 'hang':
+        return None, 'the read hangs: nothing to compare'
 
     def norm(m):
         return re.sub(r"'[^']*'", "'_'", re.sub(r'ballot file \S+', 'ballot file _', m or ''))
+    signal.setitimer(signal.ITIMER_REAL, WALL_LIMIT * 5)
     try:
         R.droop.profile.ElectionProfile(path=path)
         real = ('accepted', None)
+    except Hang:
+        return None, 'the read from the real file system did not return'
     except PE as e:
         real = ('profile-error', norm(norm_msg(str(e))))
     except BaseException as e:      # pylint: disable=broad-except
         real = ('foreign', type(e).__name__)
+    finally:
+        signal.setitimer(signal.ITIMER_REAL, 0)
     simo = (sim['outcome'], norm(sim.get('msg')) if sim['outcome'] == 'profile-error' else
             (sim['viol'][0].get('exc') if sim['outcome'] == 'foreign' and sim['viol'] else None))
     return simo == real, dict(sim=simo, real=real)
